@@ -4,8 +4,8 @@ hand-written model: src/parse/tz_file.rs — the TZif v1/v2/v3 decoder (C08; als
 
 The source has a `Version` enum, `usize` counts and a const generic `TIME_SIZE`; the model stores the version as
 1/2/3, the counts as `Nat` and passes the time size as an argument: `hdrOf` / `dbOf` convert.
-Given their model meaning (trusted, DESIGN §13): `parse_footer` (`str::from_utf8`, trimming: `Model.parseFooter`, whose
-TZ-string parser is the translated one by `parse_posix_tz_eq`), `LocalTimeType::new`, `uN/iN::from_be_bytes`,
+`parse_footer` is translated too (SrcEqFooter.lean; its `str` methods are modelled in SrcPreludeStr.lean).
+Given their model meaning (trusted, DESIGN §13): `LocalTimeType::new`, `uN/iN::from_be_bytes`,
 `chunks_exact`, `first_chunk`, `split_first_chunk`, `<[u8; N]>::try_from` and `unwrap` on exact chunks,
 `chain(iter::repeat(0))` / `zip` / `take`, `Option::and_then`, `transpose`. `TimeZone::new` is given the meaning of the
 translated `TimeZoneRef::new` (the owned constructor builds the borrowed view and checks it: C13).
@@ -15,6 +15,7 @@ import TzVerif.Model.TzFile
 import TzVerif.Proofs.SrcEqTzString
 import TzVerif.Proofs.SrcEqZone
 import TzVerif.Proofs.SrcEqTzFileAux
+import TzVerif.Proofs.SrcEqFooter
 
 set_option linter.unusedSimpArgs false
 
@@ -407,6 +408,7 @@ theorem data_blocks_parse_eq (ts : Nat) (hts : ts = 4 ∨ ts = 8) (d : Src.DataB
     subst hR4
     by_cases hok : indicatorPairsOk e d.stdWalls d.utLocals = true
     · simp only [hok, if_true, Bool.not_true, Bool.false_eq_true, if_false]
+      simp only [parse_footer_eq]
       rw [footer_eq, ver3_eq, map_zip_map_left]
       cases footer with
       | none => exact zone_new_eq' _ _ _ _
